@@ -110,6 +110,12 @@ namespace enki
         // Also known as grain size in literature.
         uint32_t                m_MinRange;
 
+        // If set, the scheduler deletes this task set after it has finished with it, i.e.
+        // after the completion of its partition has been accounted for. Only for
+        // heap-allocated sets of size 1 that nobody waits on; such a set must not delete
+        // itself inside ExecuteRange, because the scheduler still updates it afterwards.
+        bool                    m_DeleteOnCompletion = false;
+
     private:
         friend class            TaskScheduler;
         uint32_t                m_RangeToRun;
@@ -205,6 +211,7 @@ namespace enki
         void             WaitForTasks( uint32_t threadNum );
         void             RunPinnedTasks( uint32_t threadNum );
         bool             TryRunTask( uint32_t threadNum, uint32_t& hintPipeToCheck_io_ );
+        static void      CompletePartition( ITaskSet* pTask_ );
         void             StartThreads();
         void             StopThreads( bool bWait_ );
         void             SplitAndAddTask( uint32_t threadNum_, SubTaskSet subTask_, uint32_t rangeToSplit_ );
